@@ -138,7 +138,7 @@ def job_history(job):
                 av, bv = frac_vals(rng, ks), frac_vals(rng, ks2)
                 kind = rng.choice(['op', 'op', 'unary', 'reg', 'fail'])
                 name = rng.choice(['gp', 'op', 'ip', 'add', 'sub', 'sw', 'rp', 'cp']) if kind in ('op', 'fail') else \
-                    rng.choice(['reverse', 'neg', 'normsq', 'hodge', 'conjugate']) if kind == 'unary' else rng.choice(sorted(registered))
+                    rng.choice(['reverse', 'neg', 'normsq', 'hodge', 'unhodge', 'conjugate', 'involute', 'hodge', 'unhodge']) if kind == 'unary' else rng.choice(sorted(registered))
 
                 def run(A, reg):
                     a, b = mv_from(A, ks, list(av)), mv_from(A, ks2, list(bv))
@@ -276,6 +276,21 @@ def job_typeid(job):
         out['configs'] += 1
         N = 2 ** alg.d
         maxlen = cfg.get('maxlen', N)
+        # names of generated functions must be unique across operators as well: one pattern through every operator
+        allnames = {}
+        ks = tuple(range(min(N, 3)))
+        for opname, od in alg.registry.items():
+            try:
+                from kingdon.operator_dict import UnaryOperatorDict
+                keys_out, func = od[ks] if isinstance(od, UnaryOperatorDict) else od[(ks, ks)]
+            except Exception:
+                continue
+            out['evaluations'] += 1
+            nm = func.__name__
+            if nm in allnames:
+                out['failures'].append({'config': cfg, 'what': 'two operators share one generated function name (one numspace slot)', 'name': nm,
+                                        'operators': [allnames[nm], opname]})
+            allnames[nm] = opname
         names = {}
         pats = [s for k in range(0, maxlen + 1) for s in itertools.permutations(range(N), k)]
         for ks in pats:
